@@ -260,7 +260,7 @@ def run_history(rec, case):
             shape.append('%s:%s' % (s.plan[:4], ''.join(
                 'w' if d['via'] == 'ws' else 'p' for d in ds)))
         rec.key('%s/%s' % (srv, '|'.join(shape)))
-        if rec.evaluations % 301 == 0:
+        if rec.evaluations % 301 == 1:
             rec.sample({'server': srv, 'modes': modes,
                         'history': R.witness(30),
                         'deliveries': [(d['id'], d['via']) for d in
